@@ -178,9 +178,11 @@ def _outside_ids(z, offered_coords):
     return {c: p for c, p in zip(z.coords, z.payloads) if c not in offered_coords}
 
 
-def check_populate(zspec, aspec, d, body, owned, default=0, afmt="C", arange=None, n=None):
+def check_populate(zspec, aspec, d, body, owned, default=0, afmt="C", arange=None, n=None, zupper="C"):
     out = []
     feats = {"depth:%d" % d, "owned" if owned else "unowned"}
+    if zupper != "C":
+        feats.add("destination_upper_ranks_uncompressed")
     feats |= {"z:" + f for f in tree_features(zspec, d)} if d > 1 else set()
     if d == 1 and '0' in zspec:
         feats.add("z:explicit_default")
@@ -201,6 +203,9 @@ def check_populate(zspec, aspec, d, body, owned, default=0, afmt="C", arange=Non
     T = None
     if owned:
         T = Tensor.fromFiber(list(RANK_IDS[:d]), zroot, shape=shape, default=default)
+        for rid in RANK_IDS[:d - 1]:
+            if zupper != "C":
+                T.setFormat(rid, zupper)
         zroot = T.getRoot()
     araw = rawtree(a)
     model = model_of(zroot)
@@ -366,8 +371,10 @@ def case_d1u(case):
 
 
 def case_deep(case):
-    zspec, aspec, d, body, owned = case
-    return check_populate(zspec, aspec, d, body, owned)
+    zspec, aspec, d, body, owned = case[:5]
+    # optional 6th element: the format the destination's non-leaf ranks are declared with (what a populate offers and
+    # what it leaves behind is decided by the SOURCE's format; the destination's is bookkeeping for the metrics)
+    return check_populate(zspec, aspec, d, body, owned, zupper=case[5] if len(case) > 5 else "C")
 
 
 def shard_d1(acc, shard, nshards, params):
@@ -417,6 +424,8 @@ def shard_deep(acc, shard, nshards, params):
                         continue     # see ASSUMPTIONS: depth-ambiguous unowned destination
                     for b in bs:
                         yield (zspec, aspec, d, b, owned)
+                        if owned and d == 2:
+                            yield (zspec, aspec, d, b, owned, "U")
     core.drive(acc, "deep", case_deep, gen(), shard, nshards,
                family="depth%d[acts=%s]" % (d, acts), deadline=deadline)
 
